@@ -32,8 +32,8 @@ TB = [
 ]
 ASSUME = [
     "strings are over the XML 1.0 Char production; code points XML cannot carry are refused by lxml (ValueError) and are outside the quantifier",
-    "TAB, LF, CR inside an attribute value written literally are normalised to blanks by any XML parser, CR in text to LF (theorems *_norm state exactly that); the exact-string theorems and the oracle use strings without C0 controls; what the implementation does with them through lxml-assigned attributes is reported in the evidence (attr_whitespace_behaviour)",
-    "values substituted with an integer conversion, constants, enumeration tokens and library-made names / relationship ids are assumed free of markup metacharacters (hypothesis plain s of C05_all_sinks for NotText sinks)",
+    "TAB, LF, CR written literally into an attribute value are normalised to blanks by any XML parser, CR in element text to LF (theorems *_norm state exactly that): the decision table therefore demands the character references for them (C05_attr_safe_ws, C05_text_safe_cr) and the oracle judges strings with TAB / LF / CR at every entry point except the text-frame setters, whose control-character translations are property C04's",
+    "values substituted with an integer conversion, constants, enumeration tokens and library-made names / relationship ids are assumed free of markup metacharacters and of TAB / LF / CR (hypotheses plain s, no_ws_ctl s of C05_all_sinks for NotText sinks)",
     "libxml2's blank-text removal (remove_blank_text=True) drops a leading white-space run directly followed by a bare CR inside element text: outside the model (strings with C0 controls only; such cases are counted as blank-text-heuristic-skipped)",
     "caller text that is only a part of an attribute value, single-quoted attribute values, and substitutions into tag or attribute names would be unmodelled (none on the current tree)",
 ]
@@ -50,9 +50,15 @@ CORE = (["plain", "two words", "\xe9\u4e2d\U0001F600"]
            "a &amp; b", "R&D <dept> \"x\"", "]]>]]>", " & <", "100%", "{}{}", "%(", "%%s"])
 
 
-def gen_strings(rng, n_random, dom):
-    out = list(CORE)
-    pieces = META_PIECES + PLAIN_PIECES
+WS_CORE = ["a\tb", "a\nb", "a\rb", "a\r\nb", "\tlead", "trail\n", "a\tb\nc\rd", "x \r y", "\r", "\n", "\t", "a\n\rb", "R&D\t\"q\"\r\n<x>"]
+WS_PIECES = ["\t", "\n", "\r", "\r\n"]
+
+
+def gen_strings(rng, n_random, dom, ws=False):
+    """ws: also strings with TAB / LF / CR (every entry point except the text-frame setters, whose
+    control-character translations are property C04's)."""
+    out = list(CORE) + (list(WS_CORE) if ws else [])
+    pieces = META_PIECES + PLAIN_PIECES + (WS_PIECES * 4 if ws else [])
     for _ in range(n_random):
         k = rng.randint(1, 6)
         s = "".join(rng.choice(pieces) if rng.random() < 0.8 else chr(rng.choice([rng.randint(0x20, 0x7E), rng.randint(0xA0, 0x2FF), rng.randint(0x10000, 0x10FFF)]))
@@ -75,11 +81,11 @@ def gen_strings(rng, n_random, dom):
 
 
 def is_nontrivial(s):
-    return any(c in s for c in "&<>\"'") or "]]" in s or "%" in s or "{" in s
+    return any(c in s for c in "&<>\"'\t\n\r") or "]]" in s or "%" in s or "{" in s
 
 
 def char_class(s):
-    for c, n in (("&", "amp"), ("<", "lt"), ('"', "dquote"), (">", "gt"), ("'", "apos"), ("%", "percent"), ("{", "brace")):
+    for c, n in (("\t", "tab"), ("\n", "lf"), ("\r", "cr"), ("&", "amp"), ("<", "lt"), ('"', "dquote"), (">", "gt"), ("'", "apos"), ("%", "percent"), ("{", "brace")):
         if c in s:
             return n
     return "other"
@@ -157,10 +163,10 @@ GRID = {"a": {"xml": '<w xmlns:q="urn:q"><r a="\x00"/></w>', "path": "r", "attr"
 
 # ----------------------------------------------------------------------------- oracle runner
 class Outcome:
-    __slots__ = ("ep", "s", "ok", "what", "exc")
+    __slots__ = ("ep", "s", "ok", "what", "exc", "got")
 
-    def __init__(self, ep, s, ok, what="", exc=None):
-        self.ep, self.s, self.ok, self.what, self.exc = ep, s, ok, what, exc
+    def __init__(self, ep, s, ok, what="", exc=None, got=None):
+        self.ep, self.s, self.ok, self.what, self.exc, self.got = ep, s, ok, what, exc, got
 
 
 def run_ep_batch(ep, strings, tmp, benign="Benign 1"):
@@ -189,7 +195,7 @@ def run_ep_batch(ep, strings, tmp, benign="Benign 1"):
                 outs.append(Outcome(ep.key, s, False, "benign string reads back %r" % (got,)))
             continue
         if got != s:
-            outs.append(Outcome(ep.key, s, False, "reader returns %r" % (got,)))
+            outs.append(Outcome(ep.key, s, False, "reader returns %r" % (got,), got=got))
             continue
         if cnt != base:
             outs.append(Outcome(ep.key, s, False, "element count %r, for a benign string %r" % (cnt, base)))
@@ -213,7 +219,7 @@ def run_ep_batch(ep, strings, tmp, benign="Benign 1"):
                 outs.append(Outcome(ep.key, s, False, "reader after re-open raises %s: %s" % (type(e).__name__, str(e)[:90]), type(e).__name__))
                 continue
             if got != s:
-                outs.append(Outcome(ep.key, s, False, "after save + re-open the reader returns %r" % (got,)))
+                outs.append(Outcome(ep.key, s, False, "after save + re-open the reader returns %r" % (got,), got=got))
             else:
                 outs.append(Outcome(ep.key, s, True))
     return outs
@@ -240,7 +246,7 @@ def run_solo(eps, strings, tmp, benign="Benign 1"):
                 base[ep.key] = cnt
                 continue
             if got != s:
-                outs.append(Outcome(ep.key, s, False, "reader returns %r" % (got,)))
+                outs.append(Outcome(ep.key, s, False, "reader returns %r" % (got,), got=got))
             elif cnt != base.get(ep.key):
                 outs.append(Outcome(ep.key, s, False, "element count %r, for a benign string %r" % (cnt, base.get(ep.key))))
             else:
@@ -262,7 +268,7 @@ def run_solo(eps, strings, tmp, benign="Benign 1"):
             except Exception as e:  # noqa
                 outs.append(Outcome(ep.key, s, False, "reader after re-open raises %s" % type(e).__name__, type(e).__name__))
                 continue
-            outs.append(Outcome(ep.key, s, got == s, "" if got == s else "after save + re-open the reader returns %r" % (got,)))
+            outs.append(Outcome(ep.key, s, got == s, "" if got == s else "after save + re-open the reader returns %r" % (got,), got=got))
     return outs
 
 
@@ -306,10 +312,31 @@ def diag_rows():
     return rows, out
 
 
-FIX_HINT = {
-    "EscNone": "pass the value through xml.sax.saxutils.escape(value, {'\"': '&quot;'}) before it is substituted (or assign it through the lxml attribute / text setter after parsing)",
-    "EscSax": "escape the double quote as well: escape(value, {'\"': '&quot;'})",
-}
+def sink_sig(s_):
+    """Signature of a finding at a sink: markup-unsafe sinks keep `sink:`; sinks that are markup-safe but let
+    the parser normalise TAB / LF / CR get their own class."""
+    if not s_["markup_ok"]:
+        return "sink:" + s_["name"]
+    if s_["ctx"] == "AttrDq":
+        return "attr-ws-normalised:" + s_["name"]
+    return "text-cr-normalised:" + s_["name"]
+
+
+def fix_hint(s_):
+    if s_["ctx"] == "AttrDq":
+        return ("escape the value with xml.sax.saxutils.escape(value, {'\"': '&quot;', '\\t': '&#9;', '\\n': '&#10;', '\\r': '&#13;'}) "
+                "before it is substituted (or assign it through the lxml attribute setter after parsing)")
+    return ("escape the value with xml.sax.saxutils.escape(value, {'\\r': '&#13;'}) before it is substituted "
+            "(or assign it through the lxml text setter after parsing)")
+
+
+def describe(s_, ep, o):
+    written = py_escape(s_["applied"], o.s)
+    if s_["markup_ok"]:
+        return "%s(%r): the value is written as %r in %s and the parser hands back %s -- %s substitutes %s into %s (%s) with escaping '%s'" % (
+            ep, o.s, written, s_["slot"], ("%r" % (o.got,)) if o.got is not None else o.what, s_["where"], s_["src"], s_["slot"], s_["ctx"], s_["applied"])
+    return "%s(%r): %s -- %s substitutes %s into %s (%s) with escaping '%s'" % (
+        ep, o.s, o.what, s_["where"], s_["src"], s_["slot"], s_["ctx"], s_["applied"])
 
 
 def run(ck, tier, rng):
@@ -350,7 +377,7 @@ def _run_rest(ck, tier, rng, T, meta, sinks, by_id, scratch):
         rejected.append(s["sig"])
         tried = []
         bad = None
-        probes = [wit, "a" + wit + "b", "R&D", 'say "x"', "a<b", 'a" b="c']
+        probes = [wit, "a" + wit + "b", "R&D", 'say "x"', "a<b", 'a" b="c', "a\tb\nc\rd"]
         for key in s["entry_points"]:
             ep = ep_by_key.get(key)
             if ep is None:
@@ -366,12 +393,12 @@ def _run_rest(ck, tier, rng, T, meta, sinks, by_id, scratch):
         rec = {"entry_point": bad[0] if bad else (s["entry_points"][0] if s["entry_points"] else None),
                "input": bad[1].s if bad else wit, "sink": s["sig"], "responsible": s["where"], "slot": s["slot"], "context": s["ctx"],
                "escaping_applied": s["applied"], "substituted_expression": s["src"],
-               "model_outcome": "sink_ok %s %s = false; witness %r (diag/Diag_C05.v)" % (s["ctx"], s["esc"], wit),
+               "written_text": py_escape(s["applied"], bad[1].s if bad else wit), "read_back": bad[1].got if bad else None,
+               "model_outcome": "sink_ok %s (%s) = false; witness %r (diag/Diag_C05.v)" % (s["ctx"], s["esc"], wit),
                "impl_outcome": bad[1].what if bad else "no misbehaviour observed", "all_replays": tried[:12],
-               "proposed_fix": FIX_HINT.get(s["esc"], "")}
+               "proposed_fix": fix_hint(s)}
         if bad:
-            ck.violation(s["sig"], "%s(%r): %s -- %s substitutes %s into %s (%s) with escaping '%s'" % (
-                bad[0], bad[1].s, bad[1].what, s["where"], s["src"], s["slot"], s["ctx"], s["applied"]), rec)
+            ck.violation(sink_sig(s), describe(s, bad[0], bad[1]), rec)
         else:
             ck.violation("sink-unreplayed:" + s["sig"],
                          "sink %s is rejected by the decision table but no entry point misbehaved on the witness %r" % (s["sig"], wit),
@@ -384,7 +411,7 @@ def _run_rest(ck, tier, rng, T, meta, sinks, by_id, scratch):
     # 5. correspondence model ~ implementation
     quick = tier == "quick"
     cases, expect = [], []
-    grid_strings = gen_strings(rng, 500 if quick else 4000, "attr")
+    grid_strings = gen_strings(rng, 500 if quick else 4000, "attr", ws=True)
     # malformed stream: raw payloads incl. control characters, references of every kind, code points XML cannot carry
     raw_pieces = META_PIECES + ["\t", "\n", "\r", "\r\n", "\x01", "\x0b", "\x7f", "\ufffe", "\uffff", "&#9;", "&#10;", "&#13;", "&#xD;", "&#x;", "&#xg;", "&#12a;",
                                 "&amp", "&Amp;", "&#38;", "&#60;", "&#x26;#60;", "&#1114111;", "&#1114112;", "&#55296;", "&#xFFFE;", "&#000065;", "&#x000041;",
@@ -421,7 +448,7 @@ def _run_rest(ck, tier, rng, T, meta, sinks, by_id, scratch):
         cases.append(fields)
         expect.append(("multi", "", tuple(trip), rs))
     # (c) every sink: the real template with the slot filled the way the code fills it
-    sink_strings = gen_strings(rng, 60 if quick else 500, "attr")
+    sink_strings = gen_strings(rng, 60 if quick else 500, "attr", ws=True)
     n_sink_cases = 0
     for s_ in sinks:
         pr = s_.get("probe")
@@ -482,7 +509,7 @@ def _run_rest(ck, tier, rng, T, meta, sinks, by_id, scratch):
         if is_solo(ep):
             continue
         chart = "chart" in ep.key or "replace_data" in ep.key or "placeholder.insert" in ep.key
-        strings = gen_strings(rng, n_rand_chart if chart else n_rand, ep.dom)
+        strings = gen_strings(rng, n_rand_chart if chart else n_rand, ep.dom, ws=not ep.c04)
         if chart and not quick:
             strings = strings[:560]
         outs = []
@@ -490,7 +517,7 @@ def _run_rest(ck, tier, rng, T, meta, sinks, by_id, scratch):
             outs += run_ep_batch(ep, strings[i:i + 120], scratch)
         _account(ck, ep, outs, per_ep, failures)
     if solo:
-        strings = gen_strings(rng, n_rand if quick else 240, "attr")
+        strings = gen_strings(rng, n_rand if quick else 240, "attr", ws=True)
         outs = run_solo(solo, strings, scratch)
         for ep in solo:
             _account(ck, ep, [o for o in outs if o.ep == ep.key], per_ep, failures)
@@ -512,25 +539,14 @@ def _run_rest(ck, tier, rng, T, meta, sinks, by_id, scratch):
     for o in failures:
         s_ = explained.get((o.ep, o.s))
         if s_ is not None:
-            ck.violation(s_["sig"], "%s(%r): %s -- %s substitutes %s into %s (%s) with escaping '%s'" % (
-                o.ep, o.s, o.what, s_["where"], s_["src"], s_["slot"], s_["ctx"], s_["applied"]),
-                {"entry_point": o.ep, "input": o.s, "impl_outcome": o.what, "sink": s_["sig"], "responsible": s_["where"],
-                 "model_outcome": "the slot does not hold the string (broken or altered)", "proposed_fix": FIX_HINT.get(s_["esc"], "")})
+            ck.violation(sink_sig(s_), describe(s_, o.ep, o),
+                         {"entry_point": o.ep, "input": o.s, "impl_outcome": o.what, "sink": s_["sig"], "responsible": s_["where"],
+                          "written_text": py_escape(s_["applied"], o.s), "read_back": o.got,
+                          "model_outcome": "the slot does not hold the string (broken or altered)", "proposed_fix": fix_hint(s_)})
         else:
             ck.violation("ep:%s:%s" % (o.ep, char_class(o.s)), "%s(%r): %s" % (o.ep, o.s, o.what),
-                         {"entry_point": o.ep, "input": o.s, "impl_outcome": o.what,
+                         {"entry_point": o.ep, "input": o.s, "impl_outcome": o.what, "read_back": o.got,
                           "model_outcome": "no template sink explains it (model gap or lxml-assigned value)"})
-    # 7. what the implementation does with TAB / LF / CR in attribute-stored strings (reported, not judged)
-    ws = {}
-    for ep in eps:
-        if ep.dom != "attr" or "date/" in ep.key and not ep.key.startswith("add_chart[date/0]"):
-            continue
-        try:
-            outs = run_solo([ep], ["a\tb\nc\rd"], scratch) if is_solo(ep) else run_ep_batch(ep, ["a\tb\nc\rd"], scratch)
-            o = [x for x in outs if x.s != "Benign 1"]
-            ws[ep.key] = "round-trips" if o and o[0].ok else (o[0].what if o else "?")
-        except Exception as e:  # noqa
-            ws[ep.key] = "error %r" % e
     if diffs and not any(v["concrete"] for v in ck.violations) and not ck.known_hits:
         kind, slot, sval, mo, io_ = first
         ck.violation("correspondence",
@@ -553,7 +569,9 @@ def _run_rest(ck, tier, rng, T, meta, sinks, by_id, scratch):
                "entry_point_results": per_ep, "per_sink_correspondence_cases": n_sink_cases,
                "compositions": len(meta["compositions"]), "whole_document_parses": [w["where"] for w in meta["whole_document_parses"]],
                "marker_instantiations_checked": meta["n_marker_checked"], "parse_xml_call_sites": meta["n_parse_xml_calls"],
-               "attr_whitespace_behaviour": ws, "correspondence_diffs": diffs, "exhaustive": False})
+               "whitespace_strings_judged_at": [e.key for e in eps if not e.c04],
+               "text_frame_setters_without_control_characters": [e.key for e in eps if e.c04],
+               "correspondence_diffs": diffs, "exhaustive": False})
 
 
 def _account(ck, ep, outs, per_ep, failures):
@@ -607,8 +625,8 @@ def replay(rec):
 
 
 CLAIM = {
-    "tech": "Coq proof: escape functions and an XML slot lexer (double-quoted attribute value, element text) in Gallina, theorems for all strings of XML characters, verified decision table sink_ok evaluated by vm_compute over the template sinks re-extracted from /repo each run; marker cross-validation of the translator; per-sink correspondence with the real parser; API-level oracle with save/re-open",
-    "text": "15 theorems closed under the global context: saxutils.escape (three replace passes) equals the per-character substitution; escaped text is read back as exactly one text node / one attribute value holding the string (with the parser's line-end and attribute-value normalisation stated exactly, and the exact string for strings without TAB/LF/CR); escape without the quot entity is refuted inside attributes (witness: the double quote), no escaping is refuted (ampersand, less-than); the CDATA-end sequence is rejected by the lexer wherever it stands and cannot occur after escaping; the decision table is sound and exact (every rejected combination has a witness). Instance C05_all_sinks: every hole of every XML template of src/pptx (61 templates, ~140 holes, found by an AST scan of all %-format / str.format / f-string expressions and cross-validated by marker instantiation) is either escaped adequately for its context or receives a value that is not caller text; rejected sinks are listed by diag/Diag_C05.v and replayed through the public entry point that reaches them. The model is tied to the implementation by running saxutils.escape and pptx.oxml.parse_xml on a minimal template and on every real template over the same strings, and the oracle runs every enumerated string-accepting entry point (names, file names, hyperlinks, chart names / labels / number formats, fonts, prog-ids, core properties, text) on markup-biased strings incl. save + re-open.",
-    "note": "translator tx_c05 and the entry-point enumeration are trusted (cross-validated each run); 'library-made' holes are classified by observation over that enumeration; libxml2 is modelled by the slot lexers (correspondence, not proof); lxml attribute/text assignment is the trusted third kind of sink, exercised by save + re-open; TAB/LF/CR in literally written attribute values are normalised by the parser (stated, reported in evidence).",
+    "tech": "Coq proof: saxutils.escape with any sub-dictionary of quote / TAB / LF / CR and an XML slot lexer (double-quoted attribute value with attribute-value normalisation, element text with line-end handling, references, CDATA sections) in Gallina; theorems for all strings of XML characters; verified decision table sink_ok (the slot gives back exactly the string) evaluated by vm_compute over the template sinks re-extracted from /repo each run; marker / taint / escaping cross-validation of the translator; per-sink correspondence with the real parser; API-level oracle with save + re-open",
+    "text": "19 theorems closed under the global context: escape(data, entities) (successive replace passes) equals the per-character substitution for every sub-dictionary; escaped text is read back as exactly one text node / one attribute value: with the quote, TAB, LF and CR written as references an attribute gives back EVERY string (C05_attr_safe_ws, no guard), text with CR as a reference gives back every string (C05_text_safe_cr); with the shorter dictionaries the parser's normalisation is stated exactly (*_norm) and the exact string holds for strings without TAB/LF/CR; escape without the quot entity is refuted inside attributes, no escaping is refuted (ampersand, less-than); the CDATA-end sequence is rejected in character data and cannot occur after escaping; the decision table is sound and exact (every rejected combination has a witness: quote, TAB, LF or CR in an attribute, CR in text), and the weaker markup table guarantees the slot is never broken. Instance C05_all_sinks: every hole of every XML template of src/pptx (61 templates, ~140 holes, found by an AST scan of all %-format / str.format / f-string expressions and cross-validated by marker instantiation, a taint run and a run with metacharacters) either gives back exactly the caller's string or receives a value that is not caller text; rejected sinks are listed by diag/Diag_C05.v and replayed through the public entry point that reaches them (signatures sink: / attr-ws-normalised: / text-cr-normalised:). The model is tied to the implementation by running saxutils.escape and pptx.oxml.parse_xml on a minimal template and on every real template over the same strings, and the oracle runs every enumerated string-accepting entry point (names, file names, hyperlinks, chart names / labels / number formats, fonts, prog-ids, core properties, text) on markup- and white-space-biased strings over the XML Char production incl. save + re-open.",
+    "note": "translator tx_c05 and the entry-point enumeration are trusted (cross-validated each run); 'library-made' holes are classified by observation over that enumeration plus call-site analysis against a table; libxml2 is modelled by the slot lexers (correspondence, not proof; its blank-text heuristic is outside the model); lxml attribute/text assignment is the trusted third kind of sink, exercised by save + re-open; text-frame setters are run without control characters (their translations are property C04's).",
     "ref": "6/C05",
 }
